@@ -12,13 +12,17 @@ EXPLANATION = (
     "mask of the target in the target's frame), also for frame-skipping edges - is preserved by every primitive and the six node/edge user actions; "
     "EdgeAnnotator.update is proved to recompute exactly the added edge (AddEdge) or every edge incident to the node (UpdateNodeSeg), each endpoint in "
     "its own frame, 0 when a mask is empty, and nothing when iou is inactive or for other actions. "
-    "BOUNDED STAND-IN: the bulk path EdgeAnnotator.compute (enable_features at any point) and the numeric IoU on random scenarios.")
+    "Bulk path PROVED too (contracts/bulkiou.py; every number of frames, nodes, edges): EdgeAnnotator._iou_update gives every edge of its list the IoU of the two frames' "
+    "masks (0 without overlap) and changes nothing else; EdgeAnnotator.compute - nodes filed by frame, out-edges of a frame grouped by the frame of their target, one _iou_update per "
+    "group - gives every edge the IoU of its endpoints' masks in their own frames, also across skipped frames, iff the IoU key is requested and active (six loop invariants). "
+    "BOUNDED STAND-IN: the numpy body of _compute_ious and the numeric IoU on random scenarios.")
 ASSUMPTIONS = ["floats opaque; IoU of non-overlapping masks is the integer 0 as the code stores it"]
-NOT_UNDER_CONTRACT = ["_compute_ious body (numpy unique/counts): bounded", "EdgeAnnotator.compute / _iou_update (bulk): bounded"]
+NOT_UNDER_CONTRACT = ["_compute_ious body (numpy unique/counts): assumed contract + bounded"]
 
 
 def units(tier):
-    return [u for u in segprims.annotator_units() if "Edge" in u.name] + primitives.units(SEGP) + useractions.units(UA_ALL, SEG)
+    from contracts import bulkiou
+    return bulkiou.units() + [u for u in segprims.annotator_units() if "Edge" in u.name] + primitives.units(SEGP) + useractions.units(UA_ALL, SEG)
 
 
 def bounded(tier, seed):
